@@ -191,6 +191,19 @@ def replay(cex):
     cfg = _cfg(case)
     K = case['K']
     mv = cex.get('model', {})
+    if cex.get('structural') and 'ROM-instances' in cex.get('obligation', ''):
+        groups = {}
+        for n_ in block.logic_subset('m'):
+            m_ = n_.op_param[1]
+            if isinstance(m_, pyrtl.RomBlock):
+                groups.setdefault(m_.name, {})[id(m_)] = m_
+        bad = []
+        for name_, ms_ in groups.items():
+            sig_ = {(m_.bitwidth, m_.addrwidth, m_.asynchronous, m_.pad_with_zeros, id(m_.data)) for m_ in ms_.values()}
+            if len(sig_) > 1:
+                bad.append('ROM %s: the instances made for further read ports differ from the declared one in (bitwidth, addrwidth, '
+                           'asynchronous, pad_with_zeros, data identity): %s' % (name_, sorted(map(str, sig_))))
+        return bool(bad), '\n'.join(bad)
     try:
         trace, mems, sim = concrete.sim_concrete(block, K, mv, kind='sim',
                                                  catch=(VfAssert,) if case.get('fam') == 'ASSERTD' else None, **cfg)
